@@ -311,6 +311,11 @@ class FnPrinter:
 
     def ex_ImplicitCastExpr(self, n):
         ck = n.get('castKind'); sub = n['inner'][0]
+        if ck == 'LValueToRValue' and n.get('type', {}).get('qualType', '').replace('const ', '').strip() == 'bool':
+            # a C++ bool object only ever holds 0 or 1; memory that cbmc makes up (is_fresh, havoc) may hold any byte in a
+            # _Bool, and cbmc then reads it inconsistently (`b ? 1 : 0` vs `c = b`; measured).  Every read of a bool object
+            # is normalised, so all reads agree and the spurious states cannot be told apart from genuine ones.
+            return '(%s != 0)' % self.paren(self.ex(sub))
         if ck in ('LValueToRValue', 'NoOp', 'FunctionToPointerDecay', 'ConstructorConversion', 'UserDefinedConversion'):
             return self.ex(sub)
         if ck == 'ArrayToPointerDecay':
